@@ -748,7 +748,7 @@ def check_C18(tier):
                for o in sample_cases(obs, 6, lambda o: any(c in (42, 63, 91, 123) for c in o["s"]))]
     # the real engine on the text itself was recorded (is_match_s); bind tables on seeded paths
     usable = [o["id"] for o in obs if o["outcome"] == "ok" and o["dfa"]["ok"]]
-    n_replayed = len(usable) + replay_table_sample(by_id, usable, "C18", per_case=2, max_cases=1500)
+    n_replayed = len(usable)
     # directed replays through the real entry point: the string itself and its near neighbours - a separator added at
     # either end, doubled or followed by a `.` component, a character more or less - judged by the statement itself
     # (accepted iff equal to the string), whatever the exported automaton says
@@ -774,6 +774,11 @@ def check_C18(tier):
                        "escape(%r) = %r: the real is_match %s the path %r" % (C.text(o["s"]), C.text(o.get("escaped", [])),
                                                                              "accepts" if p["kind"] == "engine_more" else p["kind"] if p["kind"] != "engine_less" else "rejects", C.text(p.get("path", []))))
     n_replayed += n_dir
+    try:
+        n_replayed += replay_table_sample(by_id, usable, "C18", per_case=2, max_cases=1500)
+    except C.ToolError:
+        if not v.violations:
+            raise        # (otherwise the directed replays have already shown that the entry point deviates from its program)
     rc = v.finish()
     C.write_evidence("C18", tier, "model_checking", {
         "states": stats["distinct"], "transitions": stats["generated"],
